@@ -35,7 +35,7 @@ META = {
     "task objects to model tasks (hashing.task_def_case); the abstract cache 'hit iff a result is stored under the checksum' "
     "(the job protocol itself is C10-C12's subject).",
     "rule": "case = (task A, task B, aspect): python tasks (function from generated source: body, closure value, input value / "
-    "type / container order / numpy shape / dtype / memory layout / raw-buffer twins), shell tasks (executable, argstr, position, sep, formatter, input value), "
+    "type / container order / numpy shape / dtype / memory layout / raw-buffer twins / callable stored on a plain instance / aliased vs separate equal objects incl. File objects), shell tasks (executable, argstr, position, sep, formatter, input value), "
     "workflow tasks (constructor closure); distinct by canonical JSON; every case is non-trivial (two task classes built, "
     "two submissions, one fresh run)",
     "assumptions": [
@@ -63,6 +63,7 @@ OBLIGATIONS = [
         "C06_witness_position",
         "C06_witness_sep",
         "C06_witness_formatter",
+        "C06_witness_callable_attr_dropped",
         "C06_numpy_shape_dtype_distinguished",
         "C08_discriminates",
         "C08_context_free",
@@ -111,7 +112,7 @@ def gen_pair(rng) -> dict:
 
     aspect = rng.choice(
         ["same", "same", "body", "closure", "input-value", "input-value", "input-type", "input-shape", "input-dtype",
-         "input-order", "input-layout", "input-rawbuffer", "input-eqkeys", "argstr", "position", "sep", "formatter", "executable", "shell-input", "wf-closure"]
+         "input-order", "input-layout", "input-rawbuffer", "input-eqkeys", "input-callable-attr", "input-callable-attr", "input-aliasing", "argstr", "position", "sep", "formatter", "executable", "shell-input", "wf-closure"]
     )  # fmt: skip
     x = rng.randint(0, 50)
     if aspect == "same":
@@ -157,6 +158,21 @@ def gen_pair(rng) -> dict:
         a, b, same = H.gen_layout_pair(rng, "layout" if aspect == "input-layout" else "raw")
         body = ["return repr(x.shape) + str(x.dtype) + repr(x.tolist())"]
         return {"a": py(body, {"x": a}), "b": py(body, {"x": b}), "aspect": aspect, "equiv": same}
+    if aspect == "input-callable-attr":
+        # a plain-class instance whose distinguishing state is a callable stored on it (function / partial / class)
+        a, b, _asp, call = H.gen_callable_attr_pair(rng)
+        body = [f"return {call}"]
+        return {"a": py(body, {"x": a}), "b": py(body, {"x": b}), "aspect": aspect, "equiv": False}
+    if aspect == "input-aliasing":
+        # one object given to two inputs vs two separate equal objects: equal tasks, one cache entry
+        al = H.gen_aliased(rng)
+        d = next(n for n in H.walk(al) if n["k"] == "def")
+        u = {"k": "use", "name": d["name"]}
+        a = py(["return 3"], {"x": d, "y": {"k": "list", "xs": [u, _i(1), u]}}, params=("x", "y"))
+        env: dict = {}
+        b = copy.deepcopy(a)
+        b["inputs"] = {n: H.unshare(v, env) for n, v in b["inputs"].items()}
+        return {"a": a, "b": b, "aspect": aspect, "equiv": True}
     if aspect == "input-eqkeys":
         # two inputs hashed with the task's shared Cache whose dict keys / set elements are Python-equal but of other type
         k1, k2 = H.gen_eq_twins(rng)
